@@ -1111,11 +1111,13 @@ impl<K: EnrKey> Encodable for Enr<K> {
 
 impl<K: EnrKey> Decodable for Enr<K> {
     fn decode(buf: &mut &[u8]) -> Result<Self, DecoderError> {
-        if buf.len() > MAX_ENR_SIZE {
+        let available = buf.len();
+        let payload = &mut Header::decode_bytes(buf, true)?;
+
+        // the size limit applies to the record itself, not to whatever follows it in the buffer
+        if available - buf.len() > MAX_ENR_SIZE {
             return Err(DecoderError::Custom("enr exceeds max size"));
         }
-
-        let payload = &mut Header::decode_bytes(buf, true)?;
 
         if payload.is_empty() {
             return Err(DecoderError::Custom("Payload is empty"));
